@@ -315,3 +315,67 @@ def snapshot(M):
     else:
         s["edges"] = sorted((repr(a), repr(b), repr(sorted(d.items(), key=repr))) for a, b, d in M.edges(data=True))
     return s
+
+
+# ---- in-place edits (stale-state streams): turn an already built object for g_from into g_to without rebuilding ----
+LAYER_NAMES = {"D": "directed", "B": "bidirected", "U": "undirected", "C": "circle"}
+
+
+def perturb(g, rng, keep_counts=True, acyclic=True):
+    """a neighbour of g with the same nodes: one directed edge reversed / one edge moved (same node and edge counts when
+    keep_counts), falling back to removing one edge; returns None when no neighbour is found"""
+    import copy as _c
+    cands = []
+    for k in "DBUC":
+        for i, e in enumerate(g[k]):
+            cands.append((k, i))
+    if not cands:
+        return None
+    for _ in range(20):
+        k, i = rng.choice(cands)
+        h = _c.deepcopy(g)
+        a, b = h[k][i]
+        mode = rng.choice(["reverse", "move"]) if k in "DC" else "move"
+        if mode == "reverse":
+            if [b, a] in h[k]:
+                continue
+            h[k][i] = [b, a]
+        else:
+            c = rng.choice(h["V"])
+            if c in (a, b) or [a, c] in h[k] or [c, a] in h[k]:
+                continue
+            h[k][i] = [a, c]
+        if acyclic and not is_acyclic(h["V"], h["D"]):
+            continue
+        if canon(h) != canon(g):
+            return h
+    if keep_counts:
+        return None
+    k, i = rng.choice(cands)
+    h = _c.deepcopy(g)
+    del h[k][i]
+    return h
+
+
+def morph(obj, g_from, g_to, lab, names=None):
+    """edit obj (built for g_from with label function lab) in place so that it represents g_to:
+    remove the edges of g_from that g_to lacks, then add the missing ones, layer by layer"""
+    names = names or LAYER_NAMES
+    for k in "DBUC":
+        if k not in names:
+            continue
+        und = k in "BU"
+        norm = (lambda e: tuple(sorted(e))) if und else (lambda e: tuple(e))
+        old = {norm(e) for e in g_from[k]}
+        new = {norm(e) for e in g_to[k]}
+        for a, b in sorted(old - new):
+            obj.remove_edge(lab(a), lab(b), names[k])
+        for a, b in sorted(new - old):
+            obj.add_edge(lab(a), lab(b), names[k])
+    for v in g_to["V"]:
+        if v not in g_from["V"]:
+            obj.add_node(lab(v))
+    for v in g_from["V"]:
+        if v not in g_to["V"]:
+            obj.remove_node(lab(v))
+    return obj
